@@ -520,6 +520,8 @@ def run_c08(prop, prop_file, tier, seed):
                 if k8 in kf8 and c08_zone(kind, S, text2, d, mode, a, b):
                     known_hits[k8] = known_hits.get(k8, 0) + 1
                     res.known(kf8[k8])
+                elif "kf-c08-parenthesised-control-target" in kf8 and kind == "parens" and V(a) == "T" and "target for ." in b and " must " in b:
+                    known_hits["kf-c08-parenthesised-control-target"] = known_hits.get("kf-c08-parenthesised-control-target", 0) + 1
                 elif zs:
                     kid = sorted(zs)[0]
                     known_hits[kid] = known_hits.get(kid, 0) + 1
